@@ -104,21 +104,27 @@ fn line_diff(old: &str, new: &str) -> Vec<Range<usize>> {
 }
 
 fn push_or_merge_range(ranges: &mut Vec<Range<usize>>, mut new: Range<usize>) {
-    if let Some(overlapping) =
-        // Contiguous ranges are also merged (e.g. [6, 8) and [8, 10) -> [6, 10)).
-        ranges.pop_if(|range| new.start <= range.end && new.end >= range.start)
-    {
-        let start = new.start.min(overlapping.start);
-        let end = new.end.max(overlapping.end);
-        new = start..end;
+    if new.start >= new.end {
+        return;
     }
-    ranges.push(new);
-    // Sink the new/merged range to its sorted position.
-    let mut i = ranges.len() - 1;
-    while i > 0 && ranges[i].start < ranges[i - 1].start {
-        ranges.swap(i, i - 1);
-        i -= 1;
+    // The diff ops are not guaranteed to arrive in the order of their positions in the new line,
+    // so the new range is merged with every overlapping range, not only with the last one.
+    // Contiguous ranges are also merged (e.g. [6, 8) and [8, 10) -> [6, 10)).
+    let mut i = 0;
+    while i < ranges.len() {
+        if new.start <= ranges[i].end && new.end >= ranges[i].start {
+            let overlapping = ranges.remove(i);
+            new = new.start.min(overlapping.start)..new.end.max(overlapping.end);
+        } else {
+            i += 1;
+        }
     }
+    // Insert the new/merged range at its sorted position.
+    let mut position = 0;
+    while position < ranges.len() && ranges[position].start < new.start {
+        position += 1;
+    }
+    ranges.insert(position, new);
 }
 
 /// Pushes the first deleted line to the `line_changes` and deletes all the rest.
